@@ -161,6 +161,14 @@ def run(rep: Report, tier: str) -> None:
             f"the running {name} of the line is updated to {show(got)[:300]}; expected <previous {name} of the same key> + {show(want)[:160]}",
             loc(e[5]),
         )
+    if dflt is not None and dflt[0] == "sym" and isinstance(dflt[1], str) and ":" in dflt[1]:
+        # a shared module-level record used as the starting value (bound exactly once in its module): its constructor call stands for it
+        modname, cname = dflt[1].split(":", 1)
+        mod = prog.package.modules.get(modname)
+        binds = [st for st in getattr(mod, "tree", ast.Module(body=[])).body if isinstance(st, (ast.Assign, ast.AnnAssign)) and any(isinstance(t, ast.Name) and t.id == cname for t in (st.targets if isinstance(st, ast.Assign) else [st.target]))] if mod is not None else []
+        rebinds = [n for n in ast.walk(mod.tree) if isinstance(n, ast.Global) and cname in n.names] if mod is not None else []
+        if len(binds) == 1 and not rebinds and getattr(binds[0], "value", None) is not None:
+            dflt = norm.term(binds[0].value, Ctx(modname, None))
     zero_ok = dflt is not None and dflt[0] == "new" and all(v[0] == "const" and v[1] == 0 for _, v in dflt[2]) and len(dflt[2]) == 4
     rep.check(zero_ok, rb, fi.module, fi.qualname, "lines start from four zeros", f"a new line starts from {show(dflt) if dflt else None}; expected all four figures ZERO", loc(e[5]))
 
